@@ -17,7 +17,7 @@ func c20(c *Check) {
 	c.Trusted = []string{"cosmos-sdk bank SendCoinsFromModuleToModule / GetBalance", "x/params validation on update", "go/ssa"}
 	m := Macros{
 		"P":   "rvesting/keeper.(Keeper).GetParams($1, $0)",
-		"R":   "{P}.PerBlockReward[(μ{-1} + 1)]",
+		"R":   "{P}.PerBlockReward[μ{0}]",
 		"REM": "rvesting/keeper.(Keeper).GetRemainingCoin($1, $0, cosmos-sdk/types.(*Coin).GetDenom({R}))",
 		"V":   "μ{cosmos-sdk/types.NewCoins(nil)}",
 	}
@@ -102,7 +102,7 @@ func c20(c *Check) {
 	}
 
 	c.Rule("C20/unique-denominations", "min-per-denomination requires each denomination once: the parameter validator rejects duplicates, empty denominations and negative amounts", 3)
-	c.Spec("C20/unique-denominations", Macros{"E": "$0.(cosmos-sdk/types.Coins)#0[(μ{-1} + 1)]"}, FnSpec{Fn: "x/rvesting/types.validatePerBlockReward", Guards: []G{
+	c.Spec("C20/unique-denominations", Macros{"E": "$0.(cosmos-sdk/types.Coins)#0[μ{0}]"}, FnSpec{Fn: "x/rvesting/types.validatePerBlockReward", Guards: []G{
 		{"duplicate", "reject make(map[string]bool)[{E}.Denom]"},
 		{"empty-denom", "reject (0 == len({E}.Denom))"},
 		{"negative", "reject cosmos-sdk/types.(Coin).IsNegative({E})"},
